@@ -162,5 +162,12 @@ def round_execs(rng, quick):
     for _ in range(60 if quick else 600):
         n = rng.randint(1, 5)
         lines.append("ps %s %d %s F %d %s" % (rng.choice("SF"), rng.choice([0, 2]), rng.choice(["lf", "le", "lg", "$", "f", "e", "g"]), n, " ".join("%016x" % rng.choice(fv) for _ in range(n))))
+    # the stdout / stdin entry points (print, println, scan, scanln, look): lines of values written and read back in sequence
+    def sval():
+        k = rng.choice("IIFSS")
+        return "%s %s" % (k, str(rng.choice(ivals)) if k == "I" else ("%016x" % rng.choice(fv)) if k == "F" else h(rng.choice(strs[:220])))
+    for _ in range(60 if quick else 600):
+        n = rng.randint(1, 7)
+        lines.append("sio %s %s" % ("".join(rng.choice("lkspl") for _ in range(n)), " ".join(sval() for _ in range(n))))
     rng.shuffle(lines)
     return [["reset"] + lines[i:i + 60] for i in range(0, len(lines), 60)]
